@@ -69,7 +69,8 @@ def _analyse(case, obs):
         if k == "out" and active:
             a = next(iter(active.values()))
             if not a["paused"]:
-                return ("control returned to the caller (%s) while suspension(s) %s were in effect" % (e[2], sorted(active)), None)
+                return ("control returned to the caller (%s) while suspension(s) %s were in effect" % (e[2], sorted(active)),
+                        "a" if a["other_susp"] else None)
         if k == "msg":
             c = e[2]["cmd"]
             cur = e[2]
